@@ -534,6 +534,10 @@ def obligations_c15(tier):
                 rel.append(dict(m=m, n_best=n_best, copy_idx=copy_idx))
     meta = [dict(selector=s, seed=sd) for s in ("classification", "regression") for sd in ((0, 1) if quick else (0, 1, 2, 3))]
     return [
+        Obligation(name="O15.4 ClassificationSelector (defaults) on real data: a quantitative feature that is an exact copy / strictly monotone image of the target and a qualitative renaming of the target are always selected",
+                   harness=h_copy_classification, jobs=[dict(seed=sd) for sd in ((0, 1) if quick else (0, 1, 2, 3))],
+                   encodes=["ClassificationSelector", "kruskal_measure", "tschuprowt_measure", "spearman_filter", "tschuprowt_filter"],
+                   bounds="60-row samples, binary or 3-class target, image in {x, 3x+1, -2x, exp(x)}, n_best in 1..3 (all solver-chosen)", twin=False, budget_s=6.0),
         Obligation(name="O15.1 RegressionSelector (default measures/filters): same selection after negating any subset of features; an exact copy of the target is selected (symbolic target correlations, scipy's distance stubbed by its contract)",
                    harness=h_regression_relational, jobs=rel,
                    encodes=["RegressionSelector.__init__", "BaseSelector.select/_select_features", "quantitative_measures.distance_measure", "quantitative_filters.spearman_filter/quantitative_filter", "base_filters.thresh_filter"],
@@ -639,3 +643,30 @@ def obligation_select_multi(tier):
         rebindings=["R6 two user-supplied measures returning symbolic values", "R9 symbolic correlation matrix"],
         bounds=f"m <= {2 if quick else 3} features, n_best 1..m, symbolic measures, correlations and thresh_corr", twin_every=5, budget_s=5.0,
     )
+
+
+# ----------------------------------------------------------------------------- C15: exact copy / monotone image of a classification target
+def h_copy_classification(ctx, seed):
+    from AutoCarver.selectors import ClassificationSelector
+
+    rng = np.random.default_rng(seed)
+    n = 60
+    k = 2 + ctx.choose("n_classes", 2)
+    y = pd.Series(rng.integers(0, k, n))
+    image = ctx.choose("image", 4)
+    fx = [lambda v: v * 1.0, lambda v: 3.0 * v + 1.0, lambda v: -2.0 * v, lambda v: np.exp(v)][image]
+    X = pd.DataFrame({
+        "copy": fx(y.values.astype(float)),
+        "strong": y.values + rng.normal(size=n) * 0.7,
+        "weak": y.values * 0.2 + rng.normal(size=n),
+        "noise": rng.normal(size=n),
+        "qcopy": np.array(["cls%d" % v for v in y.values]),
+        "qnoise": np.array(["lvl%d" % v for v in rng.integers(0, 3, n)]),
+    })
+    n_best = 1 + ctx.choose("n_best", 3)
+    out = ClassificationSelector(n_best=n_best, quantitative_features=["copy", "strong", "weak", "noise"], qualitative_features=["qcopy", "qnoise"]).select(X, y)
+    ctx.require("copy" in out, "C15.exact-copy-not-selected", f"quantitative feature that is a strictly monotone image (#{image}) of the {k}-class target is not selected: {out} (n_best={n_best})",
+                dict(selector="classification", dtype="float"))
+    ctx.require("qcopy" in out, "C15.exact-copy-not-selected", f"qualitative feature that is a renaming of the {k}-class target is not selected: {out} (n_best={n_best})",
+                dict(selector="classification", dtype="str"))
+    return dict(counters={"ok": 1}, sample=dict(k=k, image=image, n_best=n_best, out=out), result=dict(out=out))
